@@ -456,7 +456,7 @@ func init() {
 			R("session", "GET", "/", []string{"Authorization: Basic abc", "Authorization: Bearer def"}, nil, ""),
 		}})
 		emit(fwCase{Cfg: cfg(true, false), Reqs: []fwReq{R("session", "GET", "/x", nil, nil, ""), R("none", "GET", "/health", nil, nil, "")}})
-		emit(fwCase{Cfg: cfg(true, false), Overlap: []int{12 << 20, 1 << 20}})
+		emit(fwCase{Cfg: cfg(true, false), Overlap: []int{12 << 20, 12<<20 - 4096}})
 		emit(fwCase{Cfg: cfg(false, true), Reqs: []fwReq{R("session", "POST", "/x", []string{"Content-Type: a/b"}, nil, "body")}})
 		emit(fwCase{Cfg: cfg(false, false), Reqs: []fwReq{R("session", "GET", "/x", spoof, []string{"a=b"}, "")}})
 		injCfg := cfg(false, false)
